@@ -148,7 +148,7 @@ static inline void dlist_del_init(struct dlist_head *entry)
  */
 static inline void dlist_move(struct dlist_head *list, struct dlist_head *head)
 {
-    __dlist_del(list->prev, list->next);
+    dlist_del_init(list);
     dlist_add(list, head);
 }
 
@@ -160,7 +160,7 @@ static inline void dlist_move(struct dlist_head *list, struct dlist_head *head)
 static inline void dlist_move_tail(struct dlist_head *list,
                                    struct dlist_head *head)
 {
-    __dlist_del(list->prev, list->next);
+    dlist_del_init(list);
     dlist_add_tail(list, head);
 }
 #define dlist_move_prev(a, b) dlist_move_tail(a, b)
